@@ -426,6 +426,9 @@ class Decimal(Element):
         except decimal.InvalidOperation:
             dec = decimal.Decimal(value.replace(",", "."))
 
+        if not dec.is_finite():
+            raise OFXSpecError(f"'{value}' is not a decimal number")
+
         if self.scale is not None:
             dec = dec.quantize(self.scale)
 
